@@ -29,9 +29,23 @@ func (n node) labelsTok() string {
 	}
 	ss := make([]string, len(n.labels))
 	for i, l := range n.labels {
-		ss[i] = fmt.Sprint(l)
+		ss[i] = fmt.Sprint(labelIdx(l))
 	}
 	return strings.Join(ss, ".")
+}
+
+// a grouping label: 0..3 = the tag's custom name (0: a name no tag has), 10+i = its legacy alias key<i>, 20+i = its
+// canonical id <i>; the model sees the resolved tag index only
+func labelIdx(l int) int { return l % 10 }
+
+func labelText(l int) string {
+	switch l / 10 {
+	case 1:
+		return fmt.Sprintf("key%d", l%10)
+	case 2:
+		return fmt.Sprint(l % 10)
+	}
+	return labelName[l]
 }
 
 func (n node) woTok() string {
@@ -67,7 +81,7 @@ func (n node) token() string {
 func (n node) grouping() string {
 	names := make([]string, len(n.labels))
 	for i, l := range n.labels {
-		names[i] = labelName[l]
+		names[i] = labelText(l)
 	}
 	kw := "by"
 	if n.without {
